@@ -552,12 +552,19 @@ def job(jc, spec):
         for (ts, te, hl) in R.tries:
             ev = lambda e: m.eval(e, model_completion=True).as_signed_long()
             tries.append([ev(ts), ev(te), [ev(a) for _, a in hl], [n for n, _ in hl]])
-        return dict(prop=which, blob=concrete_instance(B, m).hex(), tries=tries)
+        return dict(prop=which, blob=concrete_instance(B, m).hex(), tries=tries, history=decoy.hex())
     regions = {}
     if which == 'C12':
         # finding region: a try range that ends strictly inside a block which started inside it
         pass
-    for pc, (kind, ob) in eng.explore(lambda: observe(B, dex, analysis), keep_pcs=True):
+    decoy = bytes(B.blob)
+
+    def go():
+        # history: the process has analysed another file of the same layout before (the template with its default
+        # operands); what it learnt there must not leak into this analysis.  Replays repeat the same history.
+        concrete_cfg(dex, analysis, decoy)
+        return observe(B, dex, analysis)
+    for pc, (kind, ob) in eng.explore(go, keep_pcs=True):
         jc.reached('explored')
         if kind == 'exc':
             jc.obligation(eng, pc, z3.BoolVal(False), ext, label=label, what='analysis raised %r' % (ob,))
@@ -661,7 +668,8 @@ def run(ctx, which):
                       'branch offsets (8/16/32 bit, full width), switch targets (32 bit), payload reference (32 bit), try '
                       'start_addr (32 bit) / insn_count (16 bit) / handler address (uleb 1 byte)',
                       tier_note='12 curated templates (every instruction kind, shared and distinct handler lists) + seeded ones: quick 20 / thorough 150 in total, 5 flavours')
-    ctx.stubs = ['SymStruct / SymIO for the whole DEX parse', 'adler32 stub returning the skeleton checksum', 'NullLogger']
+    ctx.stubs = ['SymStruct / SymIO for the whole DEX parse', 'adler32 stub returning the skeleton checksum', 'NullLogger',
+                 'every path first analyses the template with its default operands (process history), replays do the same']
     ctx.assumptions = ['well-formed code: every branch / switch target and handler address is an instruction start of the '
                        'method body, tries are non-empty, ordered and end on an instruction boundary',
                        'successor and predecessor lists are compared as sets (DESIGN 5a)',
@@ -690,6 +698,8 @@ def replay(w):
     blob = dexasm.fix_checksum(bytes.fromhex(w['blob']))
     which = w['prop']
     try:
+        if w.get('history'):
+            concrete_cfg(dex, analysis, dexasm.fix_checksum(bytes.fromhex(w['history'])))
         got = concrete_cfg(dex, analysis, blob)
     except Exception as e:
         return True, 'analysis of the witness method raised %r' % e
